@@ -82,6 +82,9 @@ def generate(rnd, tier):
     if rnd.random() < 0.7:
         obj["nb_easy_pos"] = obj["nb_easy_neg"] = 0
     c11.coerce_values(obj)
+    if rnd.random() < 0.15:
+        # the caller's object is of a user subclass with its own resampling (recorded, or a deterministic one)
+        obj["subclass"] = rnd.choice(["recording", "recording", "identity"])
     ops = []
     fault_free = rnd.random() < 0.34
     for _ in range(rnd.randint(1, 3 if big else 4)):
@@ -298,6 +301,19 @@ def execute(scn, ctx):
     src, callers = M.build_scores(spec)
     cfp = callers.fp0
     easy = bool(src.nb_easy_pos or src.nb_easy_neg)
+    user_outputs = []
+    if spec.get("subclass"):
+        base_cls = type(src)
+        sub_kind = spec["subclass"]
+
+        class UserScores(base_cls):
+            def bootstrap_sample(self, config=None, **kw_):
+                out = self if sub_kind == "identity" else base_cls.bootstrap_sample(self, config, **kw_) if config is not None \
+                    else base_cls.bootstrap_sample(self, **kw_)
+                user_outputs.append(out)
+                return out
+
+        src.__class__ = UserScores
     viol, trace, sig = [], [], []
     probes, faults = {}, {}
     n_draws = n_forced = 0
@@ -323,6 +339,9 @@ def execute(scn, ctx):
             if k_ in args:
                 probe(pn)
         sampler = None
+        del user_outputs[:]
+        if spec.get("subclass"):
+            probe("subclass_source_" + spec["subclass"])
         if s_kind != "builtin":
             inner = M.build_config(dict(sspec.get("inner", {}), nb_samples=1)) if s_kind == "recording" else None
             ra = next((f["call"] for f in (op.get("faults") or []) if f["kind"] == "sampler_raise"), None)
@@ -434,12 +453,21 @@ def execute(scn, ctx):
                         bad("band_ordered", f"{nm}[{w}] = {b[w].tolist()} has lower > upper")
                     if fn_name == "roc_with_ci" and not np.isnan(b).any() and (b.min() < 0.0 or b.max() > 1.0):
                         bad("band_in_unit_interval", f"{nm} leaves [0,1]: min {b.min()!r} max {b.max()!r}")
+                # ---- the object that is resampled is the caller's: a subclass's own bootstrap_sample is what draws
+                # (simultaneous_joint_region_ci is analytic and draws nothing)
+                if spec.get("subclass") and sampler is None and not control_fault and fn_name != "simultaneous_joint_region_ci" \
+                        and len(user_outputs) != int(cfg["nb_samples"]):
+                    bad("resamples_drawn_from_callers_object", f"{fn_name} returned bands for nb_samples={cfg['nb_samples']} but the bootstrap_sample method of "
+                                                                f"the object that was passed (a user subclass) was called {len(user_outputs)} times")
+                recorded = sampler.outputs if sampler is not None else list(user_outputs) if spec.get("subclass") else None
+                if recorded is not None and sampler is not None and spec.get("subclass") == "identity":
+                    recorded = None  # the subclass ignores the configured sampler: nothing to compare the recording with
                 # ---- envelope refinement from the recorded resamples
-                if fn_name == "roc_with_ci" and shapes_ok and sampler is not None and not control_fault \
-                        and len(sampler.outputs) == int(cfg["nb_samples"]):
+                if fn_name == "roc_with_ci" and shapes_ok and recorded is not None and not control_fault \
+                        and len(recorded) == int(cfg["nb_samples"]):
                     try:
                         reps = []
-                        for s in sampler.outputs:
+                        for s in recorded:
                             reps.append(np.stack([np.asarray(s.fnr(s.threshold_at_fpr(fpr)), dtype=float),
                                                   np.asarray(s.fpr(s.threshold_at_fnr(fnr)), dtype=float)], axis=0))
                         theta = np.stack(reps, axis=0)
